@@ -1178,3 +1178,4 @@ RENAME_FUNCS = [(P, 'Measure._parse'), (P, 'Note._parse'), (P, 'ChordSymbol._par
 EXPLANATION += (' Location-independent additions: KEY/tonic-by-signature (the key expression of each mode path folded for all 15 signatures), CONTAIN/zip-name-flag (cp437 re-decoding only under a test of flag_bits & 0x800).')
 EXPLANATION += (' Round 6: ' + "DUP/identity-includes-time (the membership key of the signature de-duplication, or the __eq__ it relies on, includes time_position); DEGREE/subtract-is-no (path-wise with the string scenario degree-type = 'subtract': the result is 'no' + the degree on every feasible path).")
 EXPLANATION += (' Round 7: ' + 'HARMONY/accidental-spelling (five alterations folded path-wise); TEMPO/independent-of-dynamics; KEY/transposed-sounding-key (all (fifths, chromatic) pairs folded; finding F32); STATE/running-tempo-per-part and STATE/running-tempo-after-backup (known findings F30, F31).')
+EXPLANATION += (' Rounds 9-10: ' + 'REPAIR/only-a-measure-without-notes; TEMPO/default-only-without-marks (guard exact vs. one disjunct of a wider or).')
